@@ -100,7 +100,25 @@ func c18Instants(r tldRef) []time.Time {
 	} else {
 		out = append(out, time.Date(2040, 1, 1, 0, 0, 0, 0, time.UTC))
 	}
+	// the same instants expressed in other zones, and instants far away from today (first / last representable
+	// int64-nanosecond instants +-1 s, centuries before and after, the ends of the calendar)
+	out = append(out, r.deleg.In(time.FixedZone("+14", 14*3600)), r.deleg.Add(-time.Second).In(time.FixedZone("-12", -12*3600)))
+	if r.hasRem {
+		out = append(out, r.removal.In(time.FixedZone("-12", -12*3600)), r.removal.Add(time.Second).In(time.FixedZone("+14", 14*3600)))
+	}
+	out = append(out, c18Extremes...)
 	return out
+}
+
+var c18Extremes = []time.Time{
+	{},
+	time.Date(1, 1, 1, 0, 0, 1, 0, time.UTC), time.Date(1500, 1, 1, 0, 0, 0, 0, time.UTC),
+	time.Unix(0, -1<<63).UTC().Add(-time.Second), time.Unix(0, -1<<63).UTC(), time.Unix(0, -1<<63).UTC().Add(time.Second),
+	time.Date(1969, 12, 31, 23, 59, 59, 0, time.UTC), time.Unix(0, 0).UTC(),
+	time.Unix(0, 1<<63-1).UTC().Add(-time.Second), time.Unix(0, 1<<63-1).UTC(), time.Unix(0, 1<<63-1).UTC().Add(time.Second),
+	time.Date(2300, 1, 1, 0, 0, 0, 0, time.UTC), time.Date(2570, 6, 1, 0, 0, 0, 0, time.UTC), time.Date(2602, 1, 1, 0, 0, 0, 0, time.UTC), time.Date(2610, 1, 1, 0, 0, 0, 0, time.UTC),
+	time.Date(3000, 1, 1, 0, 0, 0, 0, time.UTC), time.Date(9999, 12, 31, 23, 59, 59, 0, time.UTC),
+	time.Unix(1<<40, 0).UTC(), time.Unix(-1<<40, 0).UTC(),
 }
 
 func c18Once(c *mon.Ctx) {
